@@ -275,6 +275,26 @@ FEATURES = [
      ('GET', '/resource_providers?member_of=!' + AGG(1), None), st(200)),
     (32, None, 'forbidden aggregate on candidates',
      cand('resources=VCPU:1&member_of=!' + AGG(1)), st(200)),
+    # a value syntax with its own version inside a parameter that may be
+    # repeated: every position of the repetition
+    (32, None, 'forbidden aggregate, first of two member_of (listing)',
+     ('GET', '/resource_providers?member_of=!%s&member_of=%s'
+      % (AGG(1), AGG(2)), None), st(200)),
+    (32, None, 'forbidden aggregate, last of two member_of (listing)',
+     ('GET', '/resource_providers?member_of=%s&member_of=!%s'
+      % (AGG(2), AGG(1)), None), st(200)),
+    (32, None, 'forbidden in: list, first of two member_of (listing)',
+     ('GET', '/resource_providers?member_of=!in:%s,%s&member_of=%s'
+      % (AGG(1), AGG(2), AGG(2)), None), st(200)),
+    (32, None, 'forbidden aggregate, first of two member_of (candidates)',
+     cand('resources=VCPU:1&member_of=!%s&member_of=%s' % (AGG(1), AGG(2))),
+     st(200)),
+    (32, None, 'forbidden aggregate, last of two member_of (candidates)',
+     cand('resources=VCPU:1&member_of=%s&member_of=!%s' % (AGG(2), AGG(1))),
+     st(200)),
+    (32, None, 'forbidden aggregate, first of two member_of1 (candidates)',
+     cand('resources1=VCPU:1&member_of1=!%s&member_of1=%s'
+          % (AGG(1), AGG(2))), st(200)),
     (33, None, 'string suffixes',
      cand('resources_FOO=VCPU:1'), st(200)),
     (34, None, 'mappings in allocation_requests', cand('resources=VCPU:1'),
